@@ -546,3 +546,201 @@ Theorem C07_cache_clog_inv : forall k terms nl log l l',
   LInv k terms nl l -> clrun k terms nl l log = Some l' -> LInv k terms nl l'.
 Proof. exact clrun_inv. Qed.
 Print Assumptions C07_cache_clog_inv.
+
+(* ------------------------------------------------------------------------------------------ *)
+(* C07m -- reference-counted TERMINALS (MTBDD: DynamicTerminalManager) next to the apply cache
+   and the collector.  Model: Mgr/ConcTerm.v ([xstep late] = one atomic action of one holder of
+   counted edges (threads, handles, stored inner nodes) or of the collector on the terminal
+   table keyed by value + the counted-edge tokens + the cache buckets with the terminal ids of
+   their WEAK operand / value edges + the collector's phase; [late = false] = the code: the
+   terminal collection [XGcTerm] is enabled only between `pre_gc` and `post_gc`; a schedule is
+   ANY list of actions). *)
+From OxiVerif Require Import Mgr.ConcTerm Mgr.ConcTermProofs Mgr.ConcTermThms Mgr.ConcTermExamples.
+
+(* the invariant, clause by clause: ids and values pairwise distinct (hash consing), the free
+   chain disjoint from the table, stored count = number of counted edges, every counted edge
+   and EVERY weak edge of EVERY cache bucket points to a stored terminal, the buckets the
+   collector holds are empty and carry its lock *)
+Theorem C07_term_inv_def : forall s,
+  XInv s <->
+  (NoDup (map fst (ct_tt s)) /\
+   NoDup (map (fun p => tn_val (snd p)) (ct_tt s)) /\
+   NoDup (ct_free s) /\
+   (forall x, In x (ct_free s) -> tfind (ct_tt s) x = None) /\
+   (forall x nd, tfind (ct_tt s) x = Some nd -> N.to_nat (tn_rc nd) = xowners (ct_own s) x) /\
+   (forall o, In o (ct_own s) -> stored_b (ct_tt s) (snd o) = true) /\
+   (forall b bk e x, nth_error (ct_b s) b = Some bk -> tb_ent bk = Some e ->
+                     In x (te_args e ++ te_vals e) -> stored_b (ct_tt s) x = true) /\
+   (forall b bk, nth_error (ct_b s) b = Some bk -> claimed_b (ct_ph s) (ct_next s) b = true ->
+                 tb_ent bk = None /\ tb_lock bk = LCollector)).
+Proof. exact XInv_flat. Qed.
+Print Assumptions C07_term_inv_def.
+
+(* the executable checker decides the invariant *)
+Theorem C07_term_inv_checker : forall s, tinv_b s = true <-> XInv s.
+Proof. intros s; split; [apply tinv_b_sound | apply tinv_b_complete]. Qed.
+Print Assumptions C07_term_inv_checker.
+
+(* (a) every action of every holder and of the collector preserves the invariant, hence every
+   interleaving of get_terminal / retain / drop / move / cache add / cache lookup / collector
+   steps, from the empty manager with any terminal capacity and any number of buckets *)
+Theorem C07_term_step_inv : forall s a s' r, XInv s -> xstep false s a = Some (s', r) -> XInv s'.
+Proof. exact xstep_inv. Qed.
+Print Assumptions C07_term_step_inv.
+
+Theorem C07_term_run_inv : forall sched s s', XInv s -> xrun false s sched = Some s' -> XInv s'.
+Proof. exact xrun_inv. Qed.
+Print Assumptions C07_term_run_inv.
+
+Theorem C07_term_init_inv : forall cap nb, XInv (ctinit cap nb).
+Proof. exact ctinit_inv. Qed.
+Print Assumptions C07_term_init_inv.
+
+Theorem C07_term_reachable_inv : forall cap nb s,
+  (exists sched, xrun false (ctinit cap nb) sched = Some s) -> XInv s.
+Proof. exact xreachable_inv. Qed.
+Print Assumptions C07_term_reachable_inv.
+
+(* no weak edge to a terminal dangles, the terminal table is duplicate free, the counts are exact *)
+Theorem C07_term_reachable_checks : forall cap nb s,
+  (exists sched, xrun false (ctinit cap nb) sched = Some s) ->
+  xno_dangling_b s = true /\ xterms_unique_b s = true /\ counts_exact_b s = true.
+Proof. exact xreachable_checks. Qed.
+Print Assumptions C07_term_reachable_checks.
+
+(* a cache hit returns the entry's value edges: stored terminals carrying the value they carried
+   before the hit, with a positive count, owned by the thread; the invariant is kept *)
+Theorem C07_term_hit_valid : forall s tid b args s' vals,
+  XInv s -> xstep false s (XLookup tid b args) = Some (s', XRhit vals) ->
+  XInv s' /\
+  (exists bk e, nth_error (ct_b s) b = Some bk /\ tb_lock bk = LWorker tid /\ tb_ent bk = Some e /\
+                args = te_args e /\ vals = te_vals e) /\
+  (forall x, In x vals ->
+     In (tid, x) (ct_own s') /\
+     exists nd nd', tfind (ct_tt s) x = Some nd /\ tfind (ct_tt s') x = Some nd' /\
+                    tn_val nd' = tn_val nd /\ (0 < tn_rc nd')%N).
+Proof. exact xhit_valid. Qed.
+Print Assumptions C07_term_hit_valid.
+
+(* whenever the collector frees a terminal: phase = sweep (between pre_gc and post_gc), EVERY
+   bucket is empty and held by the collector, nobody owns a counted edge to it *)
+Theorem C07_term_gc_safe : forall s x s',
+  XInv s -> xstep false s (XGcTerm x) = Some (s', XRfreed) ->
+  ct_ph s = PSweep /\
+  (forall b bk, nth_error (ct_b s) b = Some bk -> tb_ent bk = None /\ tb_lock bk = LCollector) /\
+  xowners (ct_own s) x = 0 /\
+  (forall o, In o (ct_own s) -> snd o <> x) /\
+  XInv s' /\ tfind (ct_tt s') x = None /\ In x (ct_free s').
+Proof. exact xgc_term_safe. Qed.
+Print Assumptions C07_term_gc_safe.
+
+Theorem C07_term_gc_keeps_owned : forall s x s' r y,
+  XInv s -> xstep false s (XGcTerm x) = Some (s', r) -> 0 < xowners (ct_own s) y ->
+  tfind (ct_tt s') y = tfind (ct_tt s) y.
+Proof. exact xgc_term_keeps_owned. Qed.
+Print Assumptions C07_term_gc_keeps_owned.
+
+(* no action removes or re-values a terminal that a cache entry names or somebody owns *)
+Theorem C07_term_value_stable : forall s a s' r x nd,
+  XInv s -> xstep false s a = Some (s', r) -> tfind (ct_tt s) x = Some nd ->
+  (exists b bk e, nth_error (ct_b s) b = Some bk /\ tb_ent bk = Some e /\ In x (te_args e ++ te_vals e))
+  \/ 0 < xowners (ct_own s) x ->
+  exists nd', tfind (ct_tt s') x = Some nd' /\ tn_val nd' = tn_val nd.
+Proof. exact xstep_value_stable. Qed.
+Print Assumptions C07_term_value_stable.
+
+(* an entry changes only by an insertion into its bucket or the collector's clear (both variants) *)
+Theorem C07_term_entry_cases : forall late s a s' r b bk,
+  xstep late s a = Some (s', r) -> nth_error (ct_b s) b = Some bk ->
+  exists bk', nth_error (ct_b s') b = Some bk' /\
+    (tb_ent bk' = tb_ent bk \/ (exists tid e, a = XAdd tid b e) \/ a = XGcLockBucket b).
+Proof. exact xstep_entry_cases. Qed.
+Print Assumptions C07_term_entry_cases.
+
+(* as long as an entry is neither overwritten nor cleared -- under every schedule -- it stays and
+   every terminal it names stays stored with its value; a lookup of the memoised key by any
+   thread is then a hit returning exactly the memoised value edges with the memoised values *)
+Theorem C07_term_entry_memo : forall sched s s' b bk e,
+  XInv s -> nth_error (ct_b s) b = Some bk -> tb_ent bk = Some e ->
+  Forall (fun a => match a with XAdd _ b' _ => b' <> b | XGcLockBucket b' => b' <> b | _ => True end) sched ->
+  xrun false s sched = Some s' ->
+  XInv s' /\
+  (exists bk', nth_error (ct_b s') b = Some bk' /\ tb_ent bk' = Some e) /\
+  (forall x, In x (te_args e ++ te_vals e) ->
+     exists nd nd', tfind (ct_tt s) x = Some nd /\ tfind (ct_tt s') x = Some nd' /\ tn_val nd' = tn_val nd).
+Proof. exact xrun_entry_memo. Qed.
+Print Assumptions C07_term_entry_memo.
+
+Theorem C07_term_hit_memo : forall sched s s1 b bk e tid s2 r,
+  XInv s -> nth_error (ct_b s) b = Some bk -> tb_ent bk = Some e ->
+  Forall (fun a => match a with XAdd _ b' _ => b' <> b | XGcLockBucket b' => b' <> b | _ => True end) sched ->
+  xrun false s sched = Some s1 ->
+  xstep false s1 (XLookup tid b (te_args e)) = Some (s2, r) ->
+  r = XRhit (te_vals e) /\
+  (forall x, In x (te_vals e) ->
+     exists nd nd', tfind (ct_tt s) x = Some nd /\ tfind (ct_tt s2) x = Some nd' /\ tn_val nd' = tn_val nd).
+Proof. exact xhit_memo. Qed.
+Print Assumptions C07_term_hit_memo.
+
+(* the end-state audit of ocaml/c07_main.ml: the lifted snapshot satisfies the invariant iff the
+   listed terminals have pairwise distinct ids and values and every handle / child edge names one *)
+Theorem C07_term_lift_inv : forall terms refs nb,
+  NoDup (map fst terms) -> NoDup (map snd terms) ->
+  (forall o, In o refs -> In (snd o) (map fst terms)) ->
+  XInv (lift_terms terms refs nb).
+Proof. exact lift_terms_inv. Qed.
+Print Assumptions C07_term_lift_inv.
+
+(* non-vacuity: insertion of an entry with a terminal operand and a terminal value, hit by
+   another thread, both results dropped, a complete collection (busy lookup, the terminal freed
+   during the sweep, its slot reused by a new constant); the state with the occupied bucket
+   satisfies the invariant and names terminal 0 *)
+Theorem C07_term_example :
+  xrun false (ctinit 4 2) tok_sched = Some tok_final /\
+  xrun false (ctinit 4 2) (firstn 8 tok_sched) = Some tok_mid /\
+  XInv tok_mid /\
+  (exists b bk e, nth_error (ct_b tok_mid) b = Some bk /\ tb_ent bk = Some e /\ In 0%N (te_args e ++ te_vals e)) /\
+  option_map snd (xrun_results false (ctinit 4 2) tok_sched) =
+  Some [ XRterm 0; XRterm 1; XRunit; XRunit; XRunit; XRunit; XRhit [0%N]; XRunit; XRunit; XRunit;
+         XRunit; XRunit; XRbusy; XRunit; XRunit; XRfreed; XRkept; XRterm 0;
+         XRunit; XRunit; XRunit; XRunit ].
+Proof. exact (conj tok_run (conj tok_mid_run (conj tok_mid_inv (conj tok_mid_named tok_results)))). Qed.
+Print Assumptions C07_term_example.
+
+(* (b) REFUTED by a computed schedule: `terminal_manager.gc()` AFTER `post_gc` ([xstep true]).
+   post_gc has unlocked the bucket; an operation inserts an entry whose value is a fresh terminal
+   and drops its result; the late terminal collection frees it: a dangling weak edge in an
+   UNLOCKED bucket while no collection runs ... *)
+Theorem C07_term_refute_late_gc :
+  xrun true (ctinit 2 1) late_sched = Some late_bad /\
+  xno_dangling_b late_bad = false /\ tfind (ct_tt late_bad) 0 = None /\ ct_ph late_bad = PIdle /\
+  nth_error (ct_b late_bad) 0 = Some (mkTB (Some key_res) LFree) /\ tinv_b late_bad = false.
+Proof. exact (conj late_run late_dangling). Qed.
+Print Assumptions C07_term_refute_late_gc.
+
+(* ... the next lookup of the memoised key is a hit that hands out the freed slot (a counted
+   edge to a terminal that is not stored) ... *)
+Theorem C07_term_refute_late_gc_hit :
+  exists s, xrun_results true late_bad [ XTryLock 1 0; XLookup 1 0 [1%N] ] = Some (s, [ XRunit; XRhit [0%N] ]) /\
+            tfind (ct_tt s) 0 = None /\ In (1, 0%N) (ct_own s) /\ counts_exact_b s = false.
+Proof. exact late_hit_dangling. Qed.
+Print Assumptions C07_term_refute_late_gc_hit.
+
+(* ... or, once another thread has created a new constant in the reused slot, a terminal carrying
+   9 where 7 was memoised: a wrong result *)
+Theorem C07_term_refute_late_gc_wrong_value :
+  exists s nd, xrun_results true late_bad [ XGet 2 9; XTryLock 1 0; XLookup 1 0 [1%N] ]
+               = Some (s, [ XRterm 0; XRunit; XRhit [0%N] ]) /\
+            tfind (ct_tt s) 0 = Some nd /\ tn_val nd = 9%N.
+Proof. exact late_hit_wrong_value. Qed.
+Print Assumptions C07_term_refute_late_gc_wrong_value.
+
+(* the schedule is not a behaviour of the code's protocol; with the terminal collection where the
+   code performs it the insertion finds its bucket busy *)
+Theorem C07_term_late_sched_impossible :
+  xrun false (ctinit 2 1) late_sched = None /\
+  xrun false (ctinit 2 1) good_order_sched = None /\
+  option_map snd (xrun_results false (ctinit 2 1) (firstn 6 good_order_sched)) =
+  Some [ XRunit; XRunit; XRunit; XRterm 0; XRterm 1; XRbusy ].
+Proof. exact (conj late_sched_impossible good_order_add_refused). Qed.
+Print Assumptions C07_term_late_sched_impossible.
